@@ -242,6 +242,16 @@ def _soup(rng, n):
 def front_cases(rng, tier):
     n = 450 if tier == "quick" else 6000
     datas = [b"", b"(", b"<", b"<<", b"[", b"/", b"#", b"%", b"\\", b"(\\", b"<4", b"1 0 obj", b"1 0 obj <<>> stream\n", b"[" * 30, b"<<" * 30, b"(" * 40 + b")" * 39]
+    # nesting around MAX_DEPTH (dictionaries, arrays, mixed), and every way a stream header can end at the end of the buffer
+    for depth in (18, 19, 20, 21, 22, 25, 60):
+        datas.append(b"<</K " * depth + b"1" + b">>" * depth)
+        datas.append(b"[" * depth + b"]" * depth)
+        datas.append(b"[<</K " * depth + b"0" + b">>]" * depth)
+        datas.append(b"<</K " * depth)
+    for tail in (b"stream", b"stream\r", b"stream\n", b"stream\r\n", b"stream\rx", b"stream ", b"stream\r\nabc", b"stream\nabcendstream", b"stream\r\nabc\nendstream endobj"):
+        for ln in (b"0", b"3", b"9 0 R", b"-1", b"99999999999"):
+            datas.append(b"<</Length " + ln + b">> " + tail)
+            datas.append(b"<</Length " + ln + b">>" + tail)
     for i in range(n):
         k = rng.choice([1, 2, 3, 5, 8, 13, 30, 80])
         datas.append(_soup(rng, k) if i % 4 else bytes(rng.randrange(256) for _ in range(k)))
@@ -250,6 +260,10 @@ def front_cases(rng, tier):
         yield Case("parse", [rng.choice([b"1023", b"1023", b"4", b"32", b"512", b"0"]), d, b""], tags=["front:parse"], kind="malformed")
         yield Case("parse_seq", [d], tags=["front:parse_seq"], kind="malformed")
         yield Case("parse_indirect", [rng.choice([b"s", b"t"]), rng.choice([b"", b"1 0 obj ", b"7 0 obj\n"]) + d, rng.choice([b"", b"9:3", b"9:-1"])], tags=["front:indirect"], kind="malformed")
+        if d.startswith(b"<</Length"):
+            for pre in (b"1 0 obj ", b"1 0 obj\n"):
+                for tbl in (b"", b"9:3", b"9:0"):
+                    yield Case("parse_indirect", [b"s", pre + d, tbl], tags=["front:indirect-stream"], kind="malformed")
         yield Case("strlex", [d], tags=["front:strlex"], kind="malformed")
         yield Case("hexlex", [d], tags=["front:hexlex"], kind="malformed")
         yield Case("hexdec", [d], tags=["front:hexdec"], kind="malformed")
